@@ -24,6 +24,8 @@ THEOREMS = [
     "Pyribs.C04.rejected_untouched",
     "Pyribs.C04.run_erase_rejected",
     "Pyribs.C04.accepted_all_ok",
+    "Pyribs.C04.phase_run",
+    "Pyribs.C04.tell_follows_matching_ask",
     "Pyribs.C04.slices_partition",
     "Pyribs.C04.slices_getElem",
     "Pyribs.C04.slice_unique",
@@ -817,16 +819,16 @@ def run(ctx):
 
 def _run(ctx, q):
     ctx.explore("grid", lambda r: gen_with("grid", r), run_case, ctx.n(220, 9000), nontrivial=nontrivial,
-                time_budget=9 if q else 120)
+                time_budget=8 if q else 120)
     ctx.explore("cmamae-result", lambda r: gen_with("cmamae", r), run_case, ctx.n(100, 4000),
-                nontrivial=nontrivial, time_budget=6 if q else 70)
+                nontrivial=nontrivial, time_budget=5 if q else 70)
     ctx.explore("proximity-objective-none", lambda r: gen_with("proximity", r), run_case, ctx.n(100, 4000),
-                nontrivial=nontrivial, time_budget=6 if q else 70)
+                nontrivial=nontrivial, time_budget=5 if q else 70)
     ctx.explore("long", lambda r: gen_with(r.choice(["grid", "grid", "cmamae", "proximity"]), r, long=True),
-                run_case, ctx.n(40, 3000), nontrivial=nontrivial, time_budget=6 if q else 90)
+                run_case, ctx.n(40, 3000), nontrivial=nontrivial, time_budget=5 if q else 90)
     # BanditScheduler routes rows "as Scheduler does" (its tell is its own code): the C16 runner, judged here
     # only on the routing clauses (which emitter is asked / told which rows)
-    ctx.explore("bandit-routing", _bandit_gen, _bandit_run, ctx.n(60, 3000), time_budget=5 if q else 60)
+    ctx.explore("bandit-routing", _bandit_gen, _bandit_run, ctx.n(60, 3000), time_budget=4 if q else 60)
 
 
 def _bandit_gen(rng):
